@@ -10,7 +10,7 @@ import props  # noqa: E402
 VERIF = os.path.dirname(os.path.dirname(os.path.abspath(__file__)))
 
 TEXT = {
-    "C01": ("TLC explores FFSM2.tla exhaustively for small constants with the enter/exit pairing monitor folded over every behaviour (automatic and manual activation, head and peer roots, load/replay/copy); the same monitor then runs over traces recorded from the real machine on 12 compile-time profiles (N=1..9, payloads, injections, sparse classes), each trace also validated step by step against the specification.",
+    "C01": ("TLC explores FFSM2.tla exhaustively for small constants with the enter/exit pairing monitor folded over every behaviour (automatic and manual activation, head and peer roots, load/replay/copy); the same monitor then runs over traces recorded from the real machine on 16 compile-time profiles (N=1..9 and wide machines with 64, 128 and 255 states; payloads, injections, sparse classes, every context kind), each trace also validated step by step against the specification.",
             "TLC model checking of FFSM2.tla + trace validation (conformance and pairing monitor) of recorded implementation traces"),
     "C02": ("Exhaustive exploration of every assignment of requests to phase callbacks and guards (N<=3, L=2) with the outcome monitor (last surviving request wins; unchanged at request time); conformance + monitor on recorded traces from enumerated guard-decision scripts and seeded random drivers at other constants.",
             "TLC model checking + trace validation with outcome monitor"),
@@ -28,9 +28,9 @@ TEXT = {
             "TLC model checking + plan-firing monitor on recorded traces"),
     "C09": ("planSucceeded/planFailed delivery conditions are invariants of the monitor over all explored behaviours; every recorded execution is additionally run over storage pre-filled with 0x00/0xFF/0xAA/0x01/random patterns (placement new), which is where an uninitialised planExists shows.",
             "TLC model checking + plan-outcome monitor, machines constructed over pre-filled memory"),
-    "C10": ("TaskList.tla transcribes the free list (prev/next aliasing origin/destination) and the plan's link list branch by branch; TLC checks refinement to a capacity-bounded sequence and that no slot ever leaks over the complete state graph for capacities 1..4; every transition of those graphs is replayed on the real plan (slot indices of all tasks compared, a fingerprint of the free-list state), plus seeded long sequences at capacities up to 254 and the plan-view monitor on all machine traces.",
+    "C10": ("TaskList.tla transcribes the free list (prev/next aliasing origin/destination) and the plan's link list branch by branch; TLC checks refinement to a capacity-bounded sequence and that no slot ever leaks over the complete state graph for capacities 1..4; the iterator protocol (remove while iterating) is part of the model; every transition of those graphs is replayed on the real plan (results and task sequence decide, slot indices are compared as a fingerprint of the free list and reported as drift), plus seeded long sequences at capacities up to 254, a wear scenario (several hundred refills of a full plan within one activation), the plan-view monitor on all machine traces and the consistency of every form of the plan (mutable / const iterators, first(), last(), emptiness) in every callback view.",
             "TLC model checking of TaskList.tla + edge-covering tours of its state graph replayed on the real plan + trace validation"),
-    "C13": ("BitStream.tla transcribes the per-byte chunk loops of write<W>/read<W>; TLC checks packing (no gaps, LSB first, tail zero, cursor arithmetic) and round trips for field sequences with boundary patterns, and bitWidth sufficiency for every state count 1..255 (ASSUME); the real streams are driven over every (start offset, width 1..32) pair at several capacities with raw buffer bytes and cursors compared after every operation, bitWidth() compared on powers of two +-1 and random 32-bit values.",
+    "C13": ("BitStream.tla transcribes the per-byte chunk loops of write<W>/read<W>; TLC checks packing (no gaps, LSB first, tail zero, cursor arithmetic) and round trips for field sequences with boundary patterns, and bitWidth sufficiency for every state count 1..255 (ASSUME); the real streams (also streams opened at a start cursor over a dirty buffer) are driven over every (start offset, width 1..32) pair at several capacities with raw buffer bytes and cursors compared after every operation, bitWidth() compared on powers of two +-1 and random 32-bit values.",
             "TLC model checking of BitStream.tla + byte-exact trace validation of the real streams"),
     "C20": ("BitArray.tla models the byte/mask implementation and TLC checks it against a set of integers (get, empty, padding bits) over the complete graphs for capacities 1,7,8,9 (12 in thorough); every transition of those graphs is replayed on the real BitArrayT, plus random sequences at other capacities; Arrays.tla does the same for the fixed and growable arrays (iteration order, fill/clear).",
             "TLC model checking of BitArray.tla / Arrays.tla + edge-covering tours replayed on the real containers"),
@@ -40,7 +40,7 @@ TEXT = {
             "TLC model checking + all saver/loader pairs replayed on the real code"),
     "C14": ("Dispatch is behaviour of the machine specification (a request for id k activates state k and only its callbacks run); for every state count of the sweep a real machine with that many states is built and every index k is visited (immediate change, update, react, query, guard redirects across the halves of the state list, a plan task), the trace is validated step by step against FFSM2.tla with N read from the trace, and the monitor checks stateId<T>() for every T, control.stateId(), and that access<T>() is the object whose callbacks run. Quick: 25 state counts around powers of two up to 255; thorough: every N in 1..255.",
             "trace validation of an N-sweep (up to all N in 1..255) against the TLA+ specification + id monitor"),
-    "C19": ("A feature-neutral program (transitions, guards, phases only) is built under switch combinations (quick: pairwise-covering 32 rows + ENABLE_ALL, two compilers, four standards sampled; thorough: all 256 combinations x {g++, clang++} x {11,14,17,20}), alternating activation mode, payload and header variant; a combination that does not compile is a violation; each recorded trace is validated against FFSM2.tla with the feature constants read from the trace, so any behavioural difference caused by an unused feature is a mismatch. The amalgamation clause is decided by regenerating the header with tools/join.py on a scratch copy and comparing bytes (auxiliary, not a TLA+ result).",
+    "C19": ("One program that uses every feature where it is compiled in (operations of absent features are skipped by the harness) plus two random scenarios is built under switch combinations (quick: pairwise-covering 32 rows + ENABLE_ALL, two compilers, four standards sampled; thorough: all 256 combinations x {g++, clang++} x {11,14,17,20}), alternating activation mode, payload and header variant; a combination that does not compile is a violation; each recorded trace is validated against FFSM2.tla with the feature constants read from the trace, so any behavioural difference caused by an unused feature is a mismatch. The amalgamation clause is decided by regenerating the header with tools/join.py on a scratch copy and comparing bytes (auxiliary, not a TLA+ result).",
             "build matrix + trace validation against the TLA+ specification; byte comparison of the regenerated single header"),
     "C15": ("Delivery frames expand into injection sub-deliveries in the specification; the order monitor checks each delivery on recorded traces of profiles with 0-3 injections on root and states.",
             "TLC model checking + sub-delivery order monitor"),
@@ -92,7 +92,7 @@ def main():
         ],
         "checks": checks,
         "not_applicable": na,
-        "notes": "All checks share one pool of recorded implementation traces (cached per /repo tree hash, spec hash and seed under /verif/work); each property's verdict comes from its own monitor, a conformance mismatch alone is reported as CONFORMANCE-DRIFT and does not fail the check.",
+        "notes": "Specification -> code: TLC's simulation mode exports behaviours of FFSM2.tla at each profile's constants (FFSM2Sim.tla), which are replayed on the real machine and validated like every other trace; edge-covering tours do the same for the component models and a small machine configuration. The monitors themselves are tested by mutating the specification (lib/specmut.py). All checks share one pool of recorded implementation traces (cached per /repo tree hash, spec hash and seed under /verif/work); each property's verdict comes from its own monitor, a conformance mismatch alone is reported as CONFORMANCE-DRIFT and does not fail the check.",
     }
     with open(os.path.join(VERIF, "MANIFEST.json"), "w") as f:
         json.dump(man, f, indent=1)
